@@ -475,3 +475,5 @@ func vkPatched(name string) bool {
 	}
 	return os.Getenv("VERIF_PATCHES") != "" && strings.Contains(","+os.Getenv("VERIF_PATCHES")+",", ","+name+",")
 }
+
+func vkAddr(s string) netip.Addr { return netip.MustParseAddr(s) }
